@@ -97,6 +97,6 @@ Proof. exact inverse_or_zero_spec. Qed.
 Print Assumptions C01_inverse_or_zero.
 
 Theorem C01_div : forall a b, canon a -> canon b -> b <> 0 ->
-  exists q, div a b = Some q /\ canon q /\ (val q * val b) mod P = val a.
+  exists q, bfe_div a b = Some q /\ canon q /\ (val q * val b) mod P = val a.
 Proof. exact div_spec. Qed.
 Print Assumptions C01_div.
